@@ -1,6 +1,7 @@
 package vc
 
 import (
+	"path/filepath"
 	"fmt"
 	"go/types"
 	"sort"
@@ -106,11 +107,23 @@ func (f *frame) callFunction(callee *ssa.Function, bindings, args []Val, argVals
 		rtype = callee.Signature.Results().At(0).Type()
 	}
 	if h, ok := stdSpecs[full]; ok {
+		// a contract written next to the function under verification (same
+		// package directory) takes precedence over the built-in model - this is
+		// how a package attaches lock invariants to sync.Mutex operations
+		if spec := vc.Eng.Spec.Funcs[name]; spec != nil && len(bindings) == 0 && vc.specIsLocal(spec) {
+			return f.contractCall(callee, spec, args, in, st, site)
+		}
 		if v, handled := h(f, callee, args, in, st, site); handled {
 			return v
 		}
 	}
 	if spec := vc.Eng.Spec.Funcs[name]; spec != nil && len(bindings) == 0 && !(f.top && callee == f.fn && false) {
+		return f.contractCall(callee, spec, args, in, st, site)
+	}
+	if spec := vc.Eng.Spec.Funcs[name]; spec != nil && len(bindings) > 0 && len(bindings) == len(callee.FreeVars) {
+		// a closure under contract: its free variables are the captured cells
+		f.closureBindings = bindings
+		defer func() { f.closureBindings = nil }()
 		return f.contractCall(callee, spec, args, in, st, site)
 	}
 	if vc.isPureExternal(full) {
@@ -281,6 +294,12 @@ func (f *frame) contractCall(callee *ssa.Function, spec *FuncSpec, args []Val, i
 	pre := st.Clone()
 	env := vc.calleeEnv(callee, args, pre, pre)
 	env.specFile = spec.File
+	bindings := f.closureBindings
+	for i, fv := range callee.FreeVars {
+		if i < len(bindings) {
+			env.vars["&"+fv.Name()] = bindings[i]
+		}
+	}
 	for _, l := range spec.Lets {
 		env.vars[l.Kind] = vc.evalSpec(env, l.Expr)
 	}
@@ -320,6 +339,11 @@ func (f *frame) contractCall(callee *ssa.Function, spec *FuncSpec, args []Val, i
 	res := f.freshVal(callName(site), rtype, in, st)
 	post := vc.calleeEnv(callee, args, st, pre)
 	post.specFile = spec.File
+	for i, fv := range callee.FreeVars {
+		if i < len(bindings) {
+			post.vars["&"+fv.Name()] = bindings[i]
+		}
+	}
 	for k, v := range env.vars {
 		if _, ok := post.vars[k]; !ok {
 			post.vars[k] = v
@@ -699,4 +723,18 @@ func (f *frame) assumePreserved(spec *FuncSpec, env *Env, pre, st *State) {
 		}
 		vc.assert(fmt.Sprintf("(forall ((l! Loc)) (! (=> (and %s (<= (rt l!) %s)) (= (select %s l!) (select %s l!))) :pattern ((select %s l!))))", p.matchCond("l!"), pre.Top, hn, ho, hn))
 	}
+}
+
+// specIsLocal: the contract is written in the package directory of the
+// function under verification.
+func (vc *VC) specIsLocal(spec *FuncSpec) bool {
+	fn := vc.Fn
+	for fn.Parent() != nil {
+		fn = fn.Parent()
+	}
+	if fn.Pkg == nil || spec.File == "" {
+		return false
+	}
+	pos := vc.Eng.Prog.Fset.Position(fn.Pos())
+	return filepath.Dir(pos.Filename) == filepath.Dir(spec.File)
 }
